@@ -470,6 +470,12 @@ class PeerConnection:
     def write_buffer(self) -> bytes:
         return self._write_buffer
 
+    @property
+    def has_queued_messages(self) -> bool:
+        """Indicates that messages handed over with `add_out_msg` have not yet
+        been appended to the write buffer (or discarded as not encodable)."""
+        return self._write_msg_queue.unfinished_tasks > 0
+
     def add_in_bytes(self, read_bytes: bytes):
         """Add network-received bytes to parse and handle.
 
@@ -648,3 +654,5 @@ class PeerConnection:
                 self.logger.warning(
                     f"failed to encode a queued diameter message as bytes: "
                     f"{e}; message discarded")
+            finally:
+                self._write_msg_queue.task_done()
